@@ -74,8 +74,14 @@ func pageK1(rep *Report, m *model.Client, r *rand.Rand, n int) {
 				}
 				c := engine.Pattern(uint64(j), r.Intn(1000), ps+16)[:l]
 				op, res = "setb:"+model.Hex(c), errs(p.SetBytes(c))
-			case x < 55:
+			case x < 50:
 				op, res = "load", errs(p.Load())
+			case x < 55:
+				// MarkDirty on a page whatever its state (also one that was never loaded): afterwards it must have a buffer
+				op, res = "markdirty", errs(p.MarkDirty())
+				if res == "ok" {
+					res = fmt.Sprintf("ok:buf=%d", map[bool]int{false: 0, true: 1}[txfile.VerifPageHasBuffer(p)])
+				}
 			case x < 68:
 				// in-place modification needs the writable buffer of Load
 				b, err := p.Bytes()
